@@ -31,6 +31,8 @@ def prt_for_temperature(co, k, target):
 
 
 def run(res, tier, seed):
+    import l1b as _l1b
+    _l1b.AUTO_NOISE = 7919 * seed + 13      # random bytes in every record field the spec writer does not set
     rng = common.rng_for(seed, PROP)
     import warnings
     warnings.simplefilter("ignore")
